@@ -117,6 +117,9 @@ pub fn worker_main(args: &[String], mut out: std::fs::File) -> i32 {
         writeln!(out, "DONE {}", serde_json::to_string(&r).unwrap()).unwrap();
         out.flush().unwrap();
     }
+    if std::env::var("AXSIM_FDCOUNT").is_ok() {
+        eprintln!("FDCOUNT {prop} after {} runs: {}", hi - lo, crate::util::open_fds().len());
+    }
     crate::util::cleanup_scratch();
     0
 }
